@@ -147,10 +147,14 @@ MUTANTS = [
     dict(id="c02_control_contract_axis1", property="C02", expect="silent", edits=[(DS, "      g = jnp.tensordot(g, preconditioners[j], axes=[[0], [0]])", "      g = jnp.tensordot(g, preconditioners[j], axes=[[0], [1]])")],
          note="control: preconditioners are symmetric, contracting the other index is equivalent up to rounding"),
     # ---- C03
-    dict(id="c03_gate_gt_instead_of_ge", property="C03", edits=[(DS, "    def _skip(error):\n      condition = jnp.logical_or(\n          jnp.isnan(error), error >= inverse_failure_threshold)\n      return condition.astype(error.dtype)\n\n    def _select_preconditioner(error, new_p, old_p):\n      return lax.cond(\n          _skip(error), lambda _: old_p, lambda _: new_p, operand=None)\n\n    new_preconditioners_flat = []\n    new_errors_flat = metrics_flat.inverse_pth_root_errors\n    for p, shape, prev_p, error in zip(preconditioners_flat, original_shapes,\n                                       prev_preconditioners, new_errors_flat):\n      new_preconditioners_flat.append(\n          _select_preconditioner(error, p[:shape[0], :shape[1]], prev_p))", "    def _skip(error):\n      condition = jnp.logical_or(\n          jnp.isnan(error), error > inverse_failure_threshold)\n      return condition.astype(error.dtype)\n\n    def _select_preconditioner(error, new_p, old_p):\n      return lax.cond(\n          _skip(error), lambda _: old_p, lambda _: new_p, operand=None)\n\n    new_preconditioners_flat = []\n    new_errors_flat = metrics_flat.inverse_pth_root_errors\n    for p, shape, prev_p, error in zip(preconditioners_flat, original_shapes,\n                                       prev_preconditioners, new_errors_flat):\n      new_preconditioners_flat.append(\n          _select_preconditioner(error, p[:shape[0], :shape[1]], prev_p))")],
+    dict(id="c03_gate_gt_instead_of_ge", property="C03", edits=[(DS, "    def _skip(error):\n      condition = jnp.logical_or(\n          jnp.logical_not(jnp.isfinite(error)),\n          error >= inverse_failure_threshold)\n      return condition.astype(error.dtype)\n\n    def _select_preconditioner(error, new_p, old_p):\n      return lax.cond(\n          _skip(error), lambda _: old_p, lambda _: new_p, operand=None)\n\n    new_preconditioners_flat = []\n    new_errors_flat = metrics_flat.inverse_pth_root_errors\n    for p, shape, prev_p, error in zip(preconditioners_flat, original_shapes,\n                                       prev_preconditioners, new_errors_flat):\n      new_preconditioners_flat.append(\n          _select_preconditioner(error, p[:shape[0], :shape[1]], prev_p))", "    def _skip(error):\n      condition = jnp.logical_or(\n          jnp.logical_not(jnp.isfinite(error)),\n          error > inverse_failure_threshold)\n      return condition.astype(error.dtype)\n\n    def _select_preconditioner(error, new_p, old_p):\n      return lax.cond(\n          _skip(error), lambda _: old_p, lambda _: new_p, operand=None)\n\n    new_preconditioners_flat = []\n    new_errors_flat = metrics_flat.inverse_pth_root_errors\n    for p, shape, prev_p, error in zip(preconditioners_flat, original_shapes,\n                                       prev_preconditioners, new_errors_flat):\n      new_preconditioners_flat.append(\n          _select_preconditioner(error, p[:shape[0], :shape[1]], prev_p))")],
          note="replicated gate uses > : the non-refresh placeholder error equals the threshold, so statistics get installed on non-refresh steps"),
-    dict(id="c03_sharded_isnan_dropped", property="C03", edits=[(DS, "    predicate = jnp.logical_or(\n        jnp.isnan(errors),\n        errors >= inverse_failure_threshold)", "    predicate = errors >= inverse_failure_threshold")],
-         note="sharded gate forgets the NaN test"),
+    dict(id="c03_sharded_isnan_dropped", property="C03", edits=[(DS, "    predicate = jnp.logical_or(\n        jnp.logical_not(jnp.isfinite(errors)),\n        errors >= inverse_failure_threshold)", "    predicate = errors >= inverse_failure_threshold")],
+         note="sharded gate forgets the non-finite test"),
+    dict(id="c03_gate_isnan_only_again", property="C03", edits=[(DS, "    predicate = jnp.logical_or(\n        jnp.logical_not(jnp.isfinite(errors)),\n        errors >= inverse_failure_threshold)", "    predicate = jnp.logical_or(\n        jnp.isnan(errors),\n        errors >= inverse_failure_threshold)")],
+         note="sharded gate tests isnan only: a -inf error (all-NaN 64x64 iterate on XLA CPU) passes; needs the 64x64 configuration"),
+    dict(id="c03_scalar_error_zero_again", property="C03", edits=[(DS, "    error = jnp.where(jnp.isfinite(resultant_mat_h).all(), 0.0,\n                      jnp.nan).astype(jnp.float32)", "    error = jnp.array(0, jnp.float32)")],
+         note="1x1 branch reports error 0 for a NaN root; needs the all-1x1 configuration"),
     dict(id="c03_sharded_blend_again", property="C03", edits=[(DS, "    new_conditional_preconditioners = jnp.where(\n        predicate, global_stats.preconditioners, new_preconditioners)", "    predicate = predicate.astype(new_preconditioners.dtype)\n    new_conditional_preconditioners = (\n        predicate * global_stats.preconditioners +\n        (1.0 - predicate) * new_preconditioners)")],
          note="the original arithmetic blend (0*NaN leaks)"),
     dict(id="c03_quantized_diag_always_new", property="C03", edits=[(DS, "          _select_preconditioner(error, d[:shape[0]], prev_p.diagonal))", "          d[:shape[0]])")],
